@@ -414,6 +414,8 @@ def run_property(prop: str, tier: str, runner: Callable[[str, int], Result]) -> 
         refuted=viol_records,
         exhaustive=False,
     )
+    coverage["result_cache"] = ("verdicts of unchanged (repository source, contract, specification, engine) inputs may be reused from a "
+                                "content-addressed cache under out/cache keyed by sha256 of all of them: " + tree_key()[:24])
     coverage.update(res.extra)
     ev = dict(
         property_id=prop,
@@ -451,3 +453,63 @@ def pool_map(fn, items, procs: int = 16):
     ctx = mp.get_context("fork")
     with ctx.Pool(min(procs, len(items))) as p:
         return p.map(fn, items, chunksize=max(1, len(items) // (procs * 4)))
+
+
+# --------------------------------------------------------------------------------------
+# content-addressed result cache (shared by the checks of one tree state)
+# --------------------------------------------------------------------------------------
+_TREE_KEY = None
+
+
+def tree_key() -> str:
+    """sha256 over every input a verdict can depend on: the repository sources, the engines, the contracts and specs."""
+    global _TREE_KEY
+    if _TREE_KEY is None:
+        import glob
+
+        h = hashlib.sha256()
+        files = sorted(glob.glob(os.path.join(REPO, "pycparser", "**", "*"), recursive=True))
+        files += sorted(glob.glob(os.path.join(VERIF, "pyvc", "*.py")) + glob.glob(os.path.join(VERIF, "spec", "*.py"))
+                        + glob.glob(os.path.join(VERIF, "contracts", "*.py")) + glob.glob(os.path.join(VERIF, "props", "*.py")))
+        for f in files:
+            if os.path.isfile(f) and not f.endswith((".pyc",)) and "__pycache__" not in f:
+                h.update(f.replace(REPO, "<repo>").replace(VERIF, "<verif>").encode())
+                with open(f, "rb") as fh:
+                    h.update(hashlib.sha256(fh.read()).digest())
+        h.update(sys.version.encode())
+        _TREE_KEY = h.hexdigest()
+    return _TREE_KEY
+
+
+CACHE_STATS = {"hits": 0, "misses": 0}
+
+
+def cache_get(kind: str, item: str):
+    if os.environ.get("VERIF_NO_CACHE"):
+        return None
+    import pickle
+
+    p = os.path.join(OUT, "cache", tree_key()[:24], kind, hashlib.sha256(item.encode()).hexdigest()[:32] + ".pkl")
+    try:
+        with open(p, "rb") as f:
+            CACHE_STATS["hits"] += 1
+            return pickle.load(f)
+    except Exception:
+        CACHE_STATS["misses"] += 1
+        return None
+
+
+def cache_put(kind: str, item: str, value) -> None:
+    if os.environ.get("VERIF_NO_CACHE"):
+        return
+    import pickle
+
+    d = os.path.join(OUT, "cache", tree_key()[:24], kind)
+    try:
+        os.makedirs(d, exist_ok=True)
+        tmp = os.path.join(d, hashlib.sha256(item.encode()).hexdigest()[:32] + f".{os.getpid()}.tmp")
+        with open(tmp, "wb") as f:
+            pickle.dump(value, f)
+        os.replace(tmp, tmp.rsplit(".", 2)[0] + ".pkl")
+    except Exception:
+        pass
